@@ -6,7 +6,12 @@
   * `keyTransform`    : `SiftConfig.__keytransform__` (split on '/', at most three levels)
   * `cfgGet/Set/Del`  : `SiftConfig.__getitem__/__setitem__/__delitem__` written out level by level
                         exactly like the code; `getPath/setPath/delPath` are plain nested indexing
-  * `toSafe`          : `_array_or_tuple_to_list` (ndarray → tolist(), tuple → list, through dicts only)
+  * `Scalar`          : None | bool | int | float | str, and numpy scalars (`npbool`, `npint dtype`, `npnum dtype`)
+  * `toSafe`          : `_array_or_tuple_to_list` (ndarray → tolist(), tuple → list, through dicts only; numpy
+                        scalars → `.item()`, also inside lists / tuples / dicts therein: `itemize`);
+                        `toSafeV1` is the routine before that repair (D38)
+  * `yamlSafe`        : no ndarray and no numpy scalar anywhere = what PyYAML's FullLoader reads back
+  * `Alias`           : a two-level heap stating what `get_func()`'s shallow copy shares with the live config
   * `Codec`           : the YAML library as an oracle (`dump/load`, `dump_all/load_all`)
   * `toYamlFile/fromYamlFile`, `toYamlText/fromYamlStream`, `getFunc`, `getConfig`
 
@@ -26,7 +31,26 @@ inductive Scalar
   | int (i : Int)
   | num (r : Rat)          -- a Python float (exact value)
   | str (s : Key)
+  -- numpy scalars stored directly as option values (`np.bool_`, `np.int64`/`np.uint8`/…, `np.float64`/`np.float32`/…):
+  -- `dt` is the dtype name, the value is exact
+  | npbool (b : Bool)
+  | npint (dt : Key) (i : Int)
+  | npnum (dt : Key) (r : Rat)
   deriving DecidableEq
+
+/-- is the scalar a numpy scalar (`isinstance(v, np.generic)`)? -/
+def Scalar.isNp : Scalar → Bool
+  | .npbool _ => true
+  | .npint _ _ => true
+  | .npnum _ _ => true
+  | _ => false
+
+/-- `v.item()` for numpy scalars (the Python scalar of the same value); Python scalars as they are -/
+def Scalar.item : Scalar → Scalar
+  | .npbool b => .bool b
+  | .npint _ i => .int i
+  | .npnum _ r => .num r
+  | s => s
 
 inductive Kind
   | list | tuple | array
@@ -48,6 +72,7 @@ end
 /-- the exception classes the modelled code can raise -/
 inductive Err
   | keyError | typeError | indexError | valueError | attributeError
+  | constructorError      -- yaml.constructor.ConstructorError (FullLoader refuses python/object tags)
   deriving DecidableEq
 
 def Err.name : Err → String
@@ -56,6 +81,7 @@ def Err.name : Err → String
   | .indexError => "IndexError"
   | .valueError => "ValueError"
   | .attributeError => "AttributeError"
+  | .constructorError => "Other:ConstructorError"
 
 /-! ### ordered dictionaries -/
 
@@ -112,6 +138,7 @@ def getItem (t : Tree) (k : Key) : Except Err Tree :=
     | some v => .ok v
     | none => .error .keyError
   | .seq .array _ => .error .indexError
+  | .scalar s => if s.isNp then .error .indexError else .error .typeError   -- "invalid index to scalar variable"
   | _ => .error .typeError
 
 /-- `t[k] = v` (the updated object) -/
@@ -241,12 +268,30 @@ mutual
 end
 
 mutual
-  /-- what `_array_or_tuple_to_list` stores for one dictionary value -/
+  /-- `_numpy_scalars_to_python(val)`: numpy scalars → `.item()`, through lists, tuples and dicts
+      (sequence kinds kept; ndarrays are not entered) -/
+  def itemize : Tree → Tree
+    | .scalar s => .scalar s.item
+    | .seq .list xs => .seq .list (itemizeL xs)
+    | .seq .tuple xs => .seq .tuple (itemizeL xs)
+    | .seq .array xs => .seq .array xs
+    | .dict a => .dict (itemizeA a)
+  def itemizeL : TreeList → TreeList
+    | .nil => .nil
+    | .cons t ts => .cons (itemize t) (itemizeL ts)
+  def itemizeA : Assoc → Assoc
+    | .nil => .nil
+    | .cons k v r => .cons k (itemize v) (itemizeA r)
+end
+
+mutual
+  /-- what `_array_or_tuple_to_list` stores for one dictionary value: ndarray → `tolist()`,
+      dict → recursion, tuple → list; numpy scalars (also inside lists / tuples) → Python scalars -/
   def toSafe : Tree → Tree
     | .seq .array xs => .seq .list (arrToListL xs)
-    | .seq .tuple xs => .seq .list xs
-    | .seq .list xs => .seq .list xs
-    | .scalar s => .scalar s
+    | .seq .tuple xs => .seq .list (itemizeL xs)
+    | .seq .list xs => .seq .list (itemizeL xs)
+    | .scalar s => .scalar s.item
     | .dict a => .dict (toSafeA a)
   /-- `_array_or_tuple_to_list(conf)` -/
   def toSafeA : Assoc → Assoc
@@ -255,7 +300,20 @@ mutual
 end
 
 mutual
-  /-- no ndarray anywhere: the domain on which the YAML codec is assumed to round-trip -/
+  /-- `_array_or_tuple_to_list` BEFORE the numpy-scalar repair (D38): numpy scalars were left in place -/
+  def toSafeV1 : Tree → Tree
+    | .seq .array xs => .seq .list (arrToListL xs)
+    | .seq .tuple xs => .seq .list xs
+    | .seq .list xs => .seq .list xs
+    | .scalar s => .scalar s
+    | .dict a => .dict (toSafeV1A a)
+  def toSafeV1A : Assoc → Assoc
+    | .nil => .nil
+    | .cons k v r => .cons k (toSafeV1 v) (toSafeV1A r)
+end
+
+mutual
+  /-- no ndarray anywhere (numpy scalars allowed) -/
   def arrayFree : Tree → Bool
     | .scalar _ => true
     | .seq .array _ => false
@@ -271,9 +329,28 @@ mutual
 end
 
 mutual
-  /-- a (possibly multi-dimensional) ndarray of scalars -/
+  /-- neither an ndarray nor a numpy scalar anywhere: what PyYAML dumps with standard tags only, i.e.
+      the domain on which the YAML codec is assumed to round-trip (FullLoader refuses the
+      `python/object/apply:numpy…` tags that the others are dumped with) -/
+  def yamlSafe : Tree → Bool
+    | .scalar s => !s.isNp
+    | .seq .array _ => false
+    | .seq .list xs => yamlSafeL xs
+    | .seq .tuple xs => yamlSafeL xs
+    | .dict a => yamlSafeA a
+  def yamlSafeL : TreeList → Bool
+    | .nil => true
+    | .cons t ts => yamlSafe t && yamlSafeL ts
+  def yamlSafeA : Assoc → Bool
+    | .nil => true
+    | .cons _ v r => yamlSafe v && yamlSafeA r
+end
+
+mutual
+  /-- a (possibly multi-dimensional) numeric / boolean / string ndarray: its elements are written as the
+      Python scalars `tolist()` yields -/
   def pureArray : Tree → Bool
-    | .scalar _ => true
+    | .scalar s => !s.isNp
     | .seq .array xs => pureArrayL xs
     | .seq _ _ => false
     | .dict _ => false
@@ -283,8 +360,8 @@ mutual
 end
 
 mutual
-  /-- option values as the property describes them: scalars, None, lists, tuples (array-free
-      contents), arrays of scalars, and dictionaries of such values -/
+  /-- option values as the property describes them: scalars (Python or numpy), None, lists, tuples
+      (array-free contents, numpy scalars allowed), arrays of scalars, and dictionaries of such values -/
   def plain : Tree → Bool
     | .scalar _ => true
     | .seq .array xs => pureArrayL xs
@@ -297,9 +374,10 @@ mutual
 end
 
 mutual
-  /-- forget whether a sequence is a list, a tuple or an array ("tuples may become lists") -/
+  /-- forget whether a sequence is a list, a tuple or an array ("tuples may become lists") and whether
+      a scalar is a numpy or a Python scalar of the same value -/
   def eraseKinds : Tree → Tree
-    | .scalar s => .scalar s
+    | .scalar s => .scalar s.item
     | .seq _ xs => .seq .list (eraseKindsL xs)
     | .dict a => .dict (eraseKindsA a)
   def eraseKindsL : TreeList → TreeList
@@ -323,6 +401,12 @@ def siftTypeKey : Key := "sift_type".toList
 def yamlSafeDocs (c : Cfg) : Except Err TreeList :=
   match c.store with
   | .dict a => .ok (.cons (.dict (.cons siftTypeKey c.siftType .nil)) (.cons (.dict (toSafeA a)) .nil))
+  | _ => .error .attributeError
+
+/-- `_get_yamlsafe_dict` before the numpy-scalar repair (D38) -/
+def yamlSafeDocsV1 (c : Cfg) : Except Err TreeList :=
+  match c.store with
+  | .dict a => .ok (.cons (.dict (.cons siftTypeKey c.siftType .nil)) (.cons (.dict (toSafeV1A a)) .nil))
   | _ => .error .attributeError
 
 /-- The live configuration after `to_yaml_text()` / `to_yaml_file()`: untouched (the conversion
@@ -352,8 +436,8 @@ structure Codec (Text : Type) where
 
 /-- the assumption made about the codec (validated against the real library on every run) -/
 structure Codec.Lawful {Text : Type} (C : Codec Text) : Prop where
-  load_dump : ∀ t, arrayFree t = true → C.load (C.dump t) = .ok t
-  loadAll_dumpAll : ∀ ts, arrayFreeL ts = true → C.loadAll (C.dumpAll ts) = .ok ts
+  load_dump : ∀ t, yamlSafe t = true → C.load (C.dump t) = .ok t
+  loadAll_dumpAll : ∀ ts, yamlSafeL ts = true → C.loadAll (C.dumpAll ts) = .ok ts
 
 variable {Text : Type}
 
@@ -367,6 +451,15 @@ def toYamlFile (C : Codec Text) (c : Cfg) : Except Err Text := do
 def toYamlText (C : Codec Text) (c : Cfg) : Except Err Text := do
   let docs ← yamlSafeDocs c
   pure (C.dump (.seq .list docs))
+
+/-- `to_yaml_text` / `to_yaml_file` before the numpy-scalar repair (D38) -/
+def toYamlTextV1 (C : Codec Text) (c : Cfg) : Except Err Text := do
+  let docs ← yamlSafeDocsV1 c
+  pure (C.dump (.seq .list docs))
+
+def toYamlFileV1 (C : Codec Text) (c : Cfg) : Except Err Text := do
+  let docs ← yamlSafeDocsV1 c
+  if strOk c.store then pure (C.dumpAll docs) else .error .attributeError
 
 def defaultName : Tree := Tree.str "sift"
 def unknownName : Tree := Tree.str "Unknown"
@@ -421,6 +514,55 @@ def getFunc (known : Key → Bool) (c : Cfg) : Except Err (Key × Assoc) :=
       | _ => .error .typeError
     else .error .attributeError
   | _ => .error .typeError
+
+/-! ### object sharing (Python aliasing) — what the functional model above does NOT express
+
+  `get_func` builds `functools.partial(func, **self.store)`: a NEW top-level keyword dict holding the
+  SAME nested dict objects as the live configuration (`SiftConfig(name, **other)`, `dict(cfg)` and
+  `SiftConfig(name, other.store)` copy the same way).  The two-level heap below states what that
+  means; the `Tree` model (`getFunc` returns a value) is the special case in which the configuration
+  is not edited after the partial / copy was taken.  Observed on the real code on every run (stream
+  `aliasing` of C18), not claimed by the property. -/
+namespace Alias
+
+/-- a top-level entry holds a plain value or the ADDRESS of a nested dict object -/
+inductive Slot
+  | val (t : Tree)
+  | ref (addr : Nat)
+
+/-- the nested dict objects -/
+abbrev Heap := Nat → Assoc
+/-- a top-level dict (the configuration's `store`, or a partial's `keywords`) -/
+abbrev Top := List (Key × Slot)
+
+def resolveSlot (h : Heap) : Slot → Tree
+  | .val t => t
+  | .ref a => .dict (h a)
+
+/-- the options a top-level dict denotes in a given heap -/
+def resolve (h : Heap) : Top → Assoc
+  | [] => .nil
+  | (key, s) :: r => .cons key (resolveSlot h s) (resolve h r)
+
+/-- `functools.partial(func, **store).keywords` / `dict(store)`: new top level, same objects -/
+def shallowCopy (top : Top) : Top := top
+
+/-- `cfg[key] = v` with a one-level key: rebinds an entry of the configuration's OWN top-level dict -/
+def setTop (top : Top) (key : Key) (v : Tree) : Top :=
+  match top with
+  | [] => [(key, .val v)]
+  | (k', s) :: r => if k' = key then (k', .val v) :: r else (k', s) :: setTop r key v
+
+/-- `cfg['parent/key'] = v`: mutates the nested dict OBJECT the parent entry refers to -/
+def setNested (h : Heap) (addr : Nat) (key : Key) (v : Tree) : Heap :=
+  fun a => if a = addr then (h a).insert key v else h a
+
+def slotOf (top : Top) (key : Key) : Option Slot :=
+  match top with
+  | [] => none
+  | (k', s) :: r => if k' = key then some s else slotOf r key
+
+end Alias
 
 /-! ### `get_config` -/
 
@@ -486,6 +628,7 @@ def getConfig (S : Sigs) (name : Key) : Except Err Cfg := do
 
   A tree is a comma-separated prefix code:
     N | B0 | B1 | I<int> | R<num>[:<den>] | S<cp>.<cp>… | L<n> t… | U<n> t… | A<n> t… | D<n> (S… t)…
+    | Jb0 | Jb1 | Ji<dtype>:<int> | Jf<dtype>:<num>[:<den>]        (numpy scalars)
   (`U` tuple, `A` ndarray; strings are lists of code points so that no protocol
   delimiter can appear inside a token). -/
 
@@ -497,6 +640,9 @@ def fmtScalar : Scalar → String
   | .int i => s!"I{i}"
   | .num r => if r.den = 1 then s!"R{r.num}" else s!"R{r.num}:{r.den}"
   | .str s => "S" ++ fmtKeyBody s
+  | .npbool b => if b then "Jb1" else "Jb0"
+  | .npint dt i => s!"Ji{String.ofList dt}:{i}"
+  | .npnum dt r => if r.den = 1 then s!"Jf{String.ofList dt}:{r.num}" else s!"Jf{String.ofList dt}:{r.num}:{r.den}"
 
 def kindLetter : Kind → String
   | .list => "L" | .tuple => "U" | .array => "A"
@@ -531,6 +677,17 @@ def parseRatBody? (cs : List Char) : Option Rat :=
 
 def parseNatBody? (cs : List Char) : Option Nat := (String.ofList cs).toNat?
 
+/-- `<dtype>:<int>` / `<dtype>:<num>[:<den>]` of a numpy scalar token -/
+def parseNpBody? (isInt : Bool) (cs : List Char) : Option Scalar :=
+  match (String.ofList cs).splitOn ":" with
+  | [dt, n] => n.toInt?.map fun i => if isInt then .npint dt.toList i else .npnum dt.toList (i : Rat)
+  | [dt, n, d] =>
+    if isInt then none else do
+      let i ← n.toInt?
+      let m ← d.toNat?
+      if m = 0 then none else some (.npnum dt.toList (mkRat i m))
+  | _ => none
+
 mutual
   def parseTree : Nat → List String → Option (Tree × List String)
     | 0, _ => none
@@ -540,6 +697,10 @@ mutual
       | ['N'] => some (.scalar .none, rest)
       | ['B', '0'] => some (.scalar (.bool false), rest)
       | ['B', '1'] => some (.scalar (.bool true), rest)
+      | ['J', 'b', '0'] => some (.scalar (.npbool false), rest)
+      | ['J', 'b', '1'] => some (.scalar (.npbool true), rest)
+      | 'J' :: 'i' :: ds => (parseNpBody? true ds).map fun s => (.scalar s, rest)
+      | 'J' :: 'f' :: ds => (parseNpBody? false ds).map fun s => (.scalar s, rest)
       | 'I' :: ds => (String.ofList ds).toInt?.map fun i => (.scalar (.int i), rest)
       | 'R' :: ds => (parseRatBody? ds).map fun r => (.scalar (.num r), rest)
       | 'S' :: ds => (parseKeyBody? ds).map fun s => (.scalar (.str s), rest)
@@ -592,8 +753,10 @@ def parseKey? (s : String) : Option Key :=
   | 'S' :: ds => parseKeyBody? ds
   | _ => none
 
-/-- the ideal codec used by the executable driver: documents are the trees themselves
-    (it satisfies `Codec.Lawful`; the real PyYAML is validated against the same law by the harness) -/
+/-- the ideal codec used by the executable driver: documents are the trees themselves; like PyYAML's
+    FullLoader it refuses (ConstructorError) every document that holds an ndarray or a numpy scalar
+    (it satisfies `Codec.Lawful`; the real PyYAML is validated against the same law, and against the
+    refusal, by the harness) -/
 inductive IdealText
   | one (t : Tree)
   | many (ts : TreeList)
@@ -601,13 +764,13 @@ inductive IdealText
 def idealCodec : Codec IdealText where
   dump t := .one t
   load
-    | .one t => .ok t
-    | .many (.cons t .nil) => .ok t
+    | .one t => if yamlSafe t then .ok t else .error .constructorError
+    | .many (.cons t .nil) => if yamlSafe t then .ok t else .error .constructorError
     | .many _ => .error .valueError     -- yaml.composer.ComposerError (not produced by the modelled routes)
   dumpAll ts := .many ts
   loadAll
-    | .many ts => .ok ts
-    | .one t => .ok (.cons t .nil)
+    | .many ts => if yamlSafeL ts then .ok ts else .error .constructorError
+    | .one t => if yamlSafe t then .ok (.cons t .nil) else .error .constructorError
 
 open Protocol in
 def fmtExcept (r : Except Err Tree) : String :=
@@ -664,13 +827,19 @@ def handle (o : Op) : Option String :=
       let docs := match yamlSafeDocs c with
         | .ok d => "v:" ++ fmtTree (.seq .list d)
         | .error e => "e:" ++ e.name
+      let docs := if legacy = 2 then (match yamlSafeDocsV1 c with
+        | .ok d => "v:" ++ fmtTree (.seq .list d)
+        | .error e => "e:" ++ e.name) else docs
       let back : Except Err Cfg ← match route with
-        | "file" => pure (toYamlFile idealCodec c >>= fromYamlFile idealCodec)
+        | "file" =>
+          if legacy = 2 then pure (toYamlFileV1 idealCodec c >>= fromYamlFile idealCodec)
+          else pure (toYamlFile idealCodec c >>= fromYamlFile idealCodec)
         | "text" =>
-          if legacy != 0 then pure (toYamlText idealCodec c >>= fromYamlStreamLegacy idealCodec)
+          if legacy = 2 then pure (toYamlTextV1 idealCodec c >>= fromYamlStream idealCodec)
+          else if legacy != 0 then pure (toYamlText idealCodec c >>= fromYamlStreamLegacy idealCodec)
           else pure (toYamlText idealCodec c >>= fromYamlStream idealCodec)
         | _ => return "bad-op"
-      let live := if legacy != 0 then storeAfterDumpLegacy c else storeAfterDump c
+      let live := if legacy = 1 then storeAfterDumpLegacy c else storeAfterDump c
       match back with
       | .error e => return s!"err {e.name} docs={docs} live={fmtTree live}"
       | .ok b => return s!"ok stype={fmtTree b.siftType} store={fmtTree b.store} docs={docs} live={fmtTree live}"
